@@ -256,12 +256,12 @@ func scenarios() []e3.Scenario {
 				if err := e.W.Open(); err != nil {
 					panic(err)
 				}
-				e.Thread("peer", func() {
+				e.Thread("1peer", func() { // canonical order: the connect first, Close while it is being adopted is one departure
 					if pc := e.W.Net.Connect(); pc != nil {
 						e.W.Peer = pc
 					}
 				})
-				e.Thread("close", func() { closeErr = e.W.C.Close() })
+				e.Thread("2close", func() { closeErr = e.W.C.Close() })
 			},
 			Finish: func(e *e3.Env) {
 				if closeErr != nil {
